@@ -11,6 +11,14 @@ Executes regex bytecode with:
 from typing import List, Tuple, Optional, Callable
 from .opcodes import RegexOpCode as Op
 
+# Verification hook (add-only instrumentation), see microjs/vm.py. Called as
+# _VERIF_HOOK(regex_vm, loop_name) once per matcher step; inert unless
+# MICROJS_VERIF=1 was set at import time and a harness installed a callable.
+import os as _os
+
+_VERIF_ENABLED = _os.environ.get("MICROJS_VERIF") == "1"
+_VERIF_HOOK = None
+
 
 class RegexTimeoutError(Exception):
     """Raised when regex execution times out."""
@@ -151,6 +159,8 @@ class RegexVM:
         stack: List[Tuple] = []
 
         while True:
+            if _VERIF_ENABLED and _VERIF_HOOK is not None:
+                _VERIF_HOOK(self, "main")
             # Check limits periodically
             step_count += 1
             if step_count % self.poll_interval == 0:
@@ -644,6 +654,8 @@ class RegexVM:
         step_count = 0
 
         while True:
+            if _VERIF_ENABLED and _VERIF_HOOK is not None:
+                _VERIF_HOOK(self, "lookahead")
             step_count += 1
             if step_count % self.poll_interval == 0:
                 if self.poll_callback and self.poll_callback():
@@ -757,6 +769,8 @@ class RegexVM:
         step_count = 0
 
         while True:
+            if _VERIF_ENABLED and _VERIF_HOOK is not None:
+                _VERIF_HOOK(self, "lookbehind")
             step_count += 1
             if step_count % self.poll_interval == 0:
                 if self.poll_callback and self.poll_callback():
